@@ -107,10 +107,11 @@ Theorem C03_code_tie :
   /\ (forall (R : Type) (f : kwargs -> R) i, interp f i (results_prov i) = DR (results_linear f i))
   /\ (forall (R : Type) (f : kwargs -> R) i, interp f i (run_prov i) = DS (run_order i))
   /\ gen_unflatten_is_transcribed = true
-  /\ gen_label_flow = model_label_flow.
+  /\ gen_label_flow = model_label_flow
+  /\ gen_prologue_is_transcribed = true.
 Proof.
   split; [intros; apply bridge_info|]. split; [intros; apply bridge_results|].
-  split; [intros; apply bridge_run|]. split; [exact (proj1 bridge_flags)|exact bridge_label_flow].
+  split; [intros; apply bridge_run|]. split; [exact (proj1 bridge_flags)|]. split; [exact bridge_label_flow|exact bridge_prologue].
 Qed.
 
 Print Assumptions C03_df_rows.
